@@ -963,9 +963,6 @@ func writeErrClass(errs []string) string {
 // indexed node) makes them agree, and if that index is of a kind with a recorded finding, name the kind.
 // Used for the class of a violation only.
 func (r *c07Run) culpritIndexKind(q, col string, agrees func([]map[string]any) bool) string {
-	if col != "User" {
-		return ""
-	}
 	for _, ixd := range c07IndexPool {
 		if !r.active[ixd.name] {
 			continue
